@@ -110,9 +110,18 @@ def handle_events(sol_tuple, events, consts, direction, is_terminal, attributes)
         verbose=False
     )
 
-    g = [ev_f[idx](t_root - (t_next - t_prev) * D.epsilon(roots[0].dtype) ** 0.5) for idx, t_root in enumerate(roots)]
+    def __probe_offset(t_root, fraction):
+        # the direction of a crossing is read off probes a fraction of the step to either side of the root; where the times
+        # are large compared with the step that offset is below their spacing and both probes would fall on the root itself
+        offset = (t_next - t_prev) * fraction
+        spacing = 4 * D.epsilon(roots[0].dtype) * D.ar_numpy.abs(t_root)
+        if D.ar_numpy.abs(offset) < spacing:
+            offset = D.ar_numpy.sign(t_next - t_prev) * spacing
+        return offset
+
+    g = [ev_f[idx](t_root - __probe_offset(t_root, D.epsilon(roots[0].dtype) ** 0.5)) for idx, t_root in enumerate(roots)]
     g_cen = [ev_f[idx](t_root) for idx, t_root in enumerate(roots)]
-    g_new = [ev_f[idx](t_root + (t_next - t_prev) * D.epsilon(roots[0].dtype) ** 0.5) for idx, t_root in enumerate(roots)]
+    g_new = [ev_f[idx](t_root + __probe_offset(t_root, D.epsilon(roots[0].dtype) ** 0.5)) for idx, t_root in enumerate(roots)]
 
     g = D.ar_numpy.stack(g)
     g_cen = D.ar_numpy.stack(g_cen)
@@ -125,9 +134,9 @@ def handle_events(sol_tuple, events, consts, direction, is_terminal, attributes)
     down = ((g >= 0) & (g_new <= 0)) | ((g >= 0) & (g_cen <= 0)) | ((g_cen >= 0) & (g_new <= 0))
 
     for receptive_field in [1.0, 2.0, 3.0]:
-        g = [ev_f[idx](t_root - receptive_field * (t_next - t_prev) * D.epsilon(roots[0].dtype) ** 0.75) for idx, t_root in
+        g = [ev_f[idx](t_root - __probe_offset(t_root, receptive_field * D.epsilon(roots[0].dtype) ** 0.75)) for idx, t_root in
              enumerate(roots)]
-        g_new = [ev_f[idx](t_root + receptive_field * (t_next - t_prev) * D.epsilon(roots[0].dtype) ** 0.75) for idx, t_root in
+        g_new = [ev_f[idx](t_root + __probe_offset(t_root, receptive_field * D.epsilon(roots[0].dtype) ** 0.75)) for idx, t_root in
                  enumerate(roots)]
 
         g = D.ar_numpy.stack(g)
